@@ -16,11 +16,10 @@ CLAIMED['C01'] = (
     'Theorems for all circuits and total assignments: the operator of every gate type at every arity is the fixed Boolean '
     'function bfun (fold induction over the regenerated tables, which are also shown row by row to be what the reduce-shaped '
     'model computes); the denotation exists, is unique and independent of storage order; evaluate_full_circuit returns it on every '
-    'gate and never raises; evaluate_circuit returns it on every requested output whenever it returns; evaluate, evaluate_at and '
-    'get_truth_table are the stated projections of it; every other interpreter of gate types (CNF templates at every arity, the two '
+    'gate and never raises; evaluate_circuit returns it on every requested output whenever it returns; evaluate, evaluate_at, '
+    'get_truth_table and get_gates_truth_table are the stated projections of it; every other interpreter of gate types (CNF templates at every arity, the two '
     'regenerated truth-table code tables, pattern simulation, bench conversion) denotes the same bfun. All entry points are compared with the code on every run.',
-    NOTE_COMMON + 'Projection lemma for get_gates_truth_table and termination of the explicit-stack loop are '
-    'validated by correspondence, not proved.',
+    NOTE_COMMON + 'Termination of the explicit-stack loop is validated by correspondence, not proved (partial correctness).',
     'Lean 4 proof (fold/rank induction, Kahn invariant) + regenerated tables + differential correspondence')
 CLAIMED['C20'] = (
     'DESIGN.md 5/C20',
